@@ -202,8 +202,9 @@ def merged_lookups(rng, workdir, rec, k):
     rng.shuffle(pool)
     paths, model, ids, seams = [], [], {}, []
     uid = k * 1000 + 700
+    names = rng.sample(['zulu', 'alpha', 'mike', 'p_9', 'p_10', 'p_11', 'Bravo', 'a0'], nstores)
     for s in range(nstores):
-        p = workdir / f'm{tag}_{s}.nc'
+        p = workdir / f'{names[s]}_{tag}.nc'     # deliberately not in lexicographic order
         st = TrajectoryStore.create(base_file=p)
         for _ in range(rng.randint(1, 6)):
             uid += 1
